@@ -773,7 +773,8 @@ func (h *c02Harness) runHistory(r *vg.Rand, maxSteps int) {
 func TestVerifC02Consensus(t *testing.T) {
 	root := vg.NewRand(vg.Seed() ^ 0xc02)
 	cs := vg.NewCases("C02", "c02_consensus", "TM.C02.Exec")
-	nHist := vg.Scale(60, 1500)
+	nHist := vg.Scale(160, 3000)
+	vg.ShardSize = 8
 	maxSteps := 90
 	decided, panics := 0, 0
 	for k := 0; k < nHist; k++ {
